@@ -10,6 +10,7 @@ use crate::reg::Reg;
 #[cfg(feature = "c10")] pub mod c10;
 #[cfg(feature = "c05")] pub mod c05;
 #[cfg(feature = "c13")] pub mod c13;
+#[cfg(feature = "c16")] pub mod c16;
 
 pub fn register(prop: &str, reg: &mut Reg) {
     match prop {
@@ -22,6 +23,7 @@ pub fn register(prop: &str, reg: &mut Reg) {
         #[cfg(feature = "c10")] "C10" => c10::register(reg),
         #[cfg(feature = "c05")] "C05" => c05::register(reg),
         #[cfg(feature = "c13")] "C13" => c13::register(reg),
+        #[cfg(feature = "c16")] "C16" => c16::register(reg),
         _ => { eprintln!("symx: property {} not available in this build", prop); std::process::exit(2); }
     }
 }
